@@ -29,10 +29,11 @@ Theorem c11_theta_roundtrip_compressed :
 Proof. exact roundtrip_compressed. Qed.
 
 (* reachable_wf: whatever compact(ordered) returns for a sketch reached by any history of
-   update/trim/reset is well-formed (theta0 in [1, 2^63-1]: every sampling probability in [2^-63, 1]) *)
+   update/trim/reset is well-formed (theta0 <= 2^63-1: every sampling probability in (0, 1]; that the
+   starting theta is at least 1 is part of the repaired model, /repo fix 1188107) *)
 Theorem c11_theta_reachable_wf :
   forall reorder, reorder_ok reorder -> forall c ops s ordered, cfg_ok c -> reach reorder c ops s ->
-  0 < theta0 c -> theta0 c <= MAX_THETA -> c_seed_hash c < 65536 ->
+  theta0 c <= MAX_THETA -> c_seed_hash c < 65536 ->
   c_wf (c_seed_hash c) (sk_compact s ordered).
 Proof. exact compact_wf. Qed.
 
